@@ -204,6 +204,17 @@ def cause_of(ev, p, q, kind, detail=None):
         a = ev.get("a", [])
         if len(a) >= 2 and isinstance(a[1], str) and "/" in a[1]:
             parts.append("outer-hi-may-be-zero")
+        # precise trigger: on the failing input the outer extent is 0, or the divided loop starts above 0
+        try:
+            inp = (detail or {}).get("input") or {}
+            ctrl = (inp[0] if isinstance(inp, (tuple, list)) else inp.get("ctrl")) or {}
+            val = eval(str(a[1]).replace("/", "//"), {"__builtins__": {}}, dict(ctrl))
+            if val <= 0:
+                parts.append("outer-extent-zero-on-failing-input")
+        except Exception:
+            pass
+        if blk and isinstance(blk[0], LoopIR.For) and not (isinstance(blk[0].lo, LoopIR.Const) and blk[0].lo.val == 0):
+            parts.append("loop-lo-nonzero")
     return ",".join(x for x in parts if x) or "-"
 
 
